@@ -953,3 +953,71 @@ def c17(tier, seed):
     c.conform(binary, with_etys(scns, ["tk", "zst", "plain"]), "serde")
     c.assumptions.append("outside the claim (and accepted either way): a SeqAccess that reports 0 elements left while still holding elements")
     return c.finish()
+
+
+# ---------------------------------------------------------------------------------------------
+# binding self-test: the trace specification must reject corrupted traces; NEG models must fail
+# ---------------------------------------------------------------------------------------------
+def selftest():
+    binary = vlib.build_harness()
+    d = os.path.join(vlib.WORK, "selftest")
+    import shutil
+    shutil.rmtree(d, ignore_errors=True)
+    os.makedirs(d)
+    scns = [iter_script({"n": 4, "f": 1, "b": 3, "op": "nth", "arg": 1, "pan": 0}, "selftest"),
+            {"case": "map", "prop": "selftest", "ety": "tk", "steps": [_mk("arr", 3), {"op": "map", "recv": [1], "form": ["own"], "panic_at": 1}], "d": {}},
+            {"case": "heap", "prop": "selftest", "ety": "tk", "alloc": True, "steps": [_mk("box", 2), {"op": "into_vec", "recv": [1]}], "d": {}}]
+    for i, s in enumerate(scns):
+        s["case"] = "%s#%d" % (s["case"], i)
+    vlib.write_ndjson(os.path.join(d, "s.ndjson"), scns)
+    vlib.run_driver(binary, "script", os.path.join(d, "s.ndjson"), os.path.join(d, "t.ndjson"), len(scns))
+    cases = vlib.split_cases(os.path.join(d, "t.ndjson"))
+    ok = True
+
+    def verdict(cs, name):
+        acc, rej, _ = vlib.validate_cases(cs, "selftest-" + name)
+        return len(rej)
+
+    if verdict(cases, "clean") != 0:
+        print("SELFTEST FAIL: the unmodified traces are rejected")
+        ok = False
+    import copy
+    # 1. corrupt one logged field: the element a `ret` hands back
+    c1 = copy.deepcopy(cases)
+    for i, l in enumerate(c1[0][1]):
+        e = json.loads(l)
+        if e["ev"] == "ret" and e["vals"]:
+            e["vals"] = [e["vals"][0] + 1]
+            c1[0][1][i] = json.dumps(e, separators=(",", ":")) + "\n"
+            break
+    # 2. delete one event: a destructor run inside the panicking map
+    c2 = copy.deepcopy(cases)
+    for i, l in enumerate(c2[1][1]):
+        if json.loads(l)["ev"] == "drop":
+            del c2[1][1][i]
+            break
+    # 3. corrupt an allocator event: the layout a block is released with
+    c3 = copy.deepcopy(cases)
+    for i, l in enumerate(c3[2][1]):
+        e = json.loads(l)
+        if e["ev"] == "dealloc":
+            e["size"] += 8
+            c3[2][1][i] = json.dumps(e, separators=(",", ":")) + "\n"
+            break
+    # 4. an offset in a view record
+    for name, cs in (("corrupt-ret", c1), ("deleted-drop", c2), ("corrupt-dealloc", c3)):
+        n = verdict(cs, name)
+        print("selftest %s: %d case(s) rejected" % (name, n))
+        if n != 1:
+            print("SELFTEST FAIL: %s was not rejected exactly once" % name)
+            ok = False
+    for module, cfg in (("MC_Iter", "NEG_Iter_nth"), ("MC_Build", "NEG_Build_consumer"), ("MC_Build", "NEG_Build_builder"), ("MC_Collect", "NEG_Collect_noprobe"),
+                        ("MC_Heap", "NEG_Heap_asfound"), ("MC_Hex", "NEG_Hex_budget")):
+        try:
+            vlib.run_mc(module, cfg, expect_violation=True)
+            print("selftest %s/%s: invariant violated as required" % (module, cfg))
+        except ToolError as e:
+            print("SELFTEST FAIL: %s" % str(e)[:300])
+            ok = False
+    print("SELFTEST " + ("OK" if ok else "FAILED"))
+    return 0 if ok else 2
